@@ -8,6 +8,7 @@ import (
 	"path"
 	"path/filepath"
 	"strings"
+	"syscall"
 
 	"github.com/johannesboyne/gofakes3"
 	"github.com/spf13/afero"
@@ -41,6 +42,13 @@ func checkKeyConflict(fs afero.Fs, root, objectPath string) error {
 		}
 	}
 	return nil
+}
+
+// notExist reports whether err says that a path does not exist. A path that
+// runs through a regular file ("a/b" when "a" is an object) does not exist
+// either; a real file system reports that as ENOTDIR rather than ENOENT.
+func notExist(err error) bool {
+	return os.IsNotExist(err) || errors.Is(err, syscall.ENOTDIR)
 }
 
 func invalidKey(key string) error {
